@@ -153,12 +153,14 @@ class Glushkov:
                 tail_null = tail_null and nu
             n.nullable, n.first, n.last = nullable, first, last
         elif n.kind == "alt":
-            res = [self._build(c, False) for c in n.items]
+            res = [self._build(c, True) for c in n.items]
             n.nullable = any(r[0] for r in res)
             n.first = set().union(*[r[1] for r in res])
             n.last = set().union(*[r[2] for r in res])
         elif n.kind in ("opt", "star"):
-            nu, fi, la = self._build(n.a, False)
+            # a field is optional only when the quantifier sits on the field itself; inside an optional or
+            # repeating *group* a plain field is mandatory whenever the group occurs
+            nu, fi, la = self._build(n.a, n.a.kind != "sym")
             n.nullable, n.first, n.last = True, fi, la
         elif n.kind == "plus":
             nu, fi, la = self._build(n.a, mand)
